@@ -145,7 +145,7 @@ def _parser(db, chk, enc_rule="C01.R6-encode-agreement", full=True):
     chk.floor("C01.R1-row-set", 2)
 
 
-def _rounding(db, chk):
+def _rounding(db, chk, rule="C01.R3-rounding"):
     m = db.mod(TP)
     ref = f"{TP}:round_down_time_stamps"
     fn = m.func("round_down_time_stamps")
@@ -165,16 +165,16 @@ def _rounding(db, chk):
         ts, end, dur = f.col("ts"), f.col("end"), f.col("dur")
         strip = lambda t: t[2] if isinstance(t, tuple) and t and t[0] == "aligned" else t
         ts, end = strip(ts), strip(end)
-        check_term(chk, "C01.R3-rounding", "start is rounded up: ts = ceil(ts)", where, ts, [("ceil", TS)], "floor moves the start before the original span")
-        check_term(chk, "C01.R3-rounding", "end is rounded down from the UN-rounded start: end = floor(ts + dur)", where, end, [("floor", T.add(TS, DUR))],
+        check_term(chk, rule, "start is rounded up: ts = ceil(ts)", where, ts, [("ceil", TS)], "floor moves the start before the original span")
+        check_term(chk, rule, "end is rounded down from the UN-rounded start: end = floor(ts + dur)", where, end, [("floor", T.add(TS, DUR))],
                    "ceil, or an end computed after ts was rounded, lets the rounded event leave its original span (ts=0.4, dur=0.4)")
-        check_term(chk, "C01.R3-rounding", "dur = end - ts of the rounded values (no further adjustment)", where, dur, [T.sub(("floor", T.add(TS, DUR)), ("ceil", TS))],
+        check_term(chk, rule, "dur = end - ts of the rounded values (no further adjustment)", where, dur, [T.sub(("floor", T.add(TS, DUR)), ("ceil", TS))],
                    "clipping dur and recomputing end pushes a sub-unit event's end beyond the file's end")
         wr = [e for e in r.events if e["kind"] == "frame-mutation" and e.get("column") in ("ts", "end", "dur")]
-        chk.ob("C01.R3-rounding", "exactly the three rounding stores (end0, ts, end, dur) and no later rewrite", [e["column"] for e in wr] == ["end", "ts", "end", "dur"], where,
+        chk.ob(rule, "exactly the three rounding stores (end0, ts, end, dur) and no later rewrite", [e["column"] for e in wr] == ["end", "ts", "end", "dur"], where,
                found=[e["column"] for e in wr], accepted=["end", "ts", "end", "dur"])
-    chk.ob("C01.R3-rounding", "rounding paths exist (float timestamps, rounding not disabled)", rounded >= 1, where, found=rounded, accepted=">= 1")
-    chk.floor("C01.R3-rounding", 5)
+    chk.ob(rule, "rounding paths exist (float timestamps, rounding not disabled)", rounded >= 1, where, found=rounded, accepted=">= 1")
+    chk.floor(rule, 5)
 
 
 def _shift(db, chk):
